@@ -16,7 +16,9 @@ class C07(BaseCheck):
           'on release, or while cached), advance time; connections open synchronously / with delay. After '
           'every op at a quiescent point the provider-side trace is checked against a reference model '
           '(bounds, exclusivity, FIFO hand-over, work conservation, max-waiters, idle retention, '
-          'close-on-dead) and at the end a capacity probe issues max_watermark concurrent requests. '
+          'close-on-dead) and at the end a capacity probe issues max_watermark concurrent requests; in every other '
+          'case the owner then closes the pool with connections lent out (nothing beyond min_watermark may exist '
+          'once they have come back). '
           'non-trivial = the queue was used or a connection was created beyond the first; distinct by '
           '(config, max queue depth bucket, #timed out while queued, death class, open mode)')
   ANCHORS = ('scales.pool.watermark:WatermarkPoolSink._Get', 'scales.pool.watermark:WatermarkPoolSink._Release',
@@ -24,7 +26,7 @@ class C07(BaseCheck):
              'scales.sink:ClientTimeoutSink._TimeoutHelper')
   REQUIRED_ANCHORS = ANCHORS
   REQUIRED_CLASSES = ('queued', 'timed-out-while-queued', 'stale-at-head', 'max-waiters', 'dead-on-release',
-                      'idle-retention', 'probe', 'handover')
+                      'idle-retention', 'probe', 'handover', 'closed-while-lent')
   ASSUMPTIONS = ('arrival order of queued requests = order in which their dispatch greenlets were spawned '
                  '(they do not yield before reaching the queue)',
                  'a max-waiters rejection is accepted whenever live + not-yet-skipped timed-out waiters >= '
@@ -358,6 +360,24 @@ class C07(BaseCheck):
         if s.current is not None:
           complete(s, 'reply')
       env.settle()
+      if idx % 2 == 0:
+        # the owner closes the pool while connections are lent out: when they come back, traffic
+        # has stopped for good and nothing beyond min_watermark may be retained
+        classes.add('closed-while-lent')
+        for _ in range(min(mx, 3)):
+          issue(None)
+        env.advance(0.5)
+        n_lent = len([s for s in live() if s.current is not None])
+        top.Close()
+        env.settle()
+        for s in live():
+          if s.current is not None:
+            complete(s, 'reply')
+        env.advance(0.5)
+        out.obligations += 1
+        if len(live()) > mn:
+          viol('idle-retention', '%d connections still exist after the pool was closed with %d lent out and all of them '
+               'came back, min_watermark=%d' % (len(live()), n_lent, mn), {'closed_while_lent': True})
     else:
       # pool closed itself after finding a dead connection: waiters failed exactly once
       out.obligations += 2
